@@ -282,6 +282,28 @@ func (g *gen) keySet(s *scenario, kind string) {
 			// private key objects in the provider's own list
 			s.ks.Keys = append(s.ks.Keys, tok.JWK{Kid: s.kid, Use: "sig", Key: s.signer, Private: true})
 		}
+		if r.Chance(1, 6) && !s.valid {
+			// storage keys whose Key() is itself a JWK (value or pointer, with or without
+			// own use / kid) declared sig / enc / "" by the storage, in place of or next to
+			// the raw entries
+			w := tok.JWK{Kid: s.kid, Use: drv.Pick(r, []string{"enc", "enc", "sig", ""}), Key: s.signer,
+				Wrap: drv.Pick(r, []string{"jwk", "pjwk"}), InnerUse: drv.Pick(r, []string{"", "", "sig", "enc"}), InnerKid: drv.Pick(r, []string{"", s.kid})}
+			s.scenName = "wrapped_" + tagStr(w.Use)
+			switch r.IntN(3) {
+			case 0:
+				s.ks.Keys = []tok.JWK{w}
+			case 1: // replaces the signer's raw entry
+				var rest []tok.JWK
+				for _, k := range s.ks.Keys {
+					if k.Key != s.signer {
+						rest = append(rest, k)
+					}
+				}
+				s.ks.Keys = append(rest, w)
+			default:
+				s.ks.Keys = append([]tok.JWK{w}, s.ks.Keys...)
+			}
+		}
 		if r.Chance(1, 25) && !s.valid {
 			s.ks.KeysErr = true
 			s.scenName = "keys_err"
@@ -601,6 +623,42 @@ func (g *gen) verifyCase(kind string) {
 	if !fixedDefault {
 		v.Algs = g.allowList(class, s.alg)
 	}
+	// RP CONSTRUCTOR: the verifier is the one rp.NewRelyingPartyOIDC hands out against
+	// a mock discovery document; explicit list and WithSigningAlgsFromDiscovery each
+	// absent / present, in either order; the announced list equal to, overlapping
+	// with, disjoint from the explicit one, empty or absent. v.Algs becomes what
+	// the option documentation promises (tok.RPCtor.Documented).
+	var ctor *tok.RPCtor
+	ctorTag := "direct"
+	if kind == "rp" && len(s.ks.Cached) == 0 && r.Chance(1, 2) {
+		ctor = &tok.RPCtor{Disc: r.Chance(2, 3), DiscFirst: r.Bool()}
+		s.ks.Skip = false // the relying party builds its remote key set without SkipRemoteCheck
+		if r.Chance(2, 3) {
+			l := v.Algs
+			if l == nil {
+				l = []string{}
+			}
+			ctor.Explicit = &l
+		}
+		other := func() []string { return g.allowList(drv.Pick(r, []string{"other_asym", "other_asym", "only_sym", "with_alg"}), s.alg) }
+		switch r.IntN(6) {
+		case 0:
+			ctor.Announced = nil
+		case 1:
+			ctor.Announced = []string{}
+		case 2:
+			ctor.Announced = v.Algs
+		case 3:
+			ctor.Announced = []string{s.alg}
+		default:
+			ctor.Announced = other()
+		}
+		if !ctor.Disc && ctor.Explicit == nil {
+			ctor.Disc = true
+		}
+		v.Algs = ctor.Documented()
+		ctorTag = fmt.Sprintf("explicit=%v_disc=%v_first=%v", ctor.Explicit != nil, ctor.Disc, ctor.DiscFirst)
+	}
 	now := time.Now().Unix()
 	opts := g.payloadOpts("ext")
 	var c tok.Claims
@@ -614,7 +672,11 @@ func (g *gen) verifyCase(kind string) {
 	case "rp":
 		v.Offset = drv.Pick(r, []time.Duration{0, time.Second})
 		c = tok.Claims{Iss: issuer, Sub: "user-1", Aud: []string{s.client}, Exp: now + 3600, Iat: now - 10, AuthT: now - 60, Extra: ext, Acr: "silver"}
-		if r.Bool() {
+		if ctor != nil { // NewIDTokenVerifier's defaults
+			v.Offset = time.Second
+			e := ""
+			v.Nonce = &e
+		} else if r.Bool() {
 			n := "nonce-" + ext
 			v.Nonce = &n
 			c.Nonce = n
@@ -756,10 +818,20 @@ func (g *gen) verifyCase(kind string) {
 	case "rp":
 		kindCoq = "VRpIDToken"
 		vv := rp.IDTokenVerifier(v.Verifier(s.ks.Build()))
+		pv := &vv
+		if ctor != nil {
+			var cerr error
+			pv, cerr = ctor.NewRP(issuer, s.client, s.ks.Served, s.ks.ServedFail)
+			if cerr != nil {
+				pan = "NewRelyingPartyOIDC: " + cerr.Error()
+			}
+		}
 		var out *oidc.IDTokenClaims
 		var err error
 		t0 = time.Now().UnixNano()
-		pan = drv.Catch(func() { out, err = rp.VerifyIDToken[*oidc.IDTokenClaims](ctx, t.Raw, &vv) })
+		if pan == "" {
+			pan = drv.Catch(func() { out, err = rp.VerifyIDToken[*oidc.IDTokenClaims](ctx, t.Raw, pv) })
+		}
 		t1 = time.Now().UnixNano()
 		obs = idOutcome(out, err)
 	case "at":
@@ -821,7 +893,7 @@ func (g *gen) verifyCase(kind string) {
 		obs = "(OVerify (Reject EOther))" // harness self-test: a wrong observation must be flagged
 	}
 	in := emit.Ctor("IVerify", kindCoq, v.Coq(), s.ks.Coq(), t.Coq(), m.Coq(), emit.Z(t0), emit.Z(t1))
-	tags := []string{"kind=verify", "v=" + kind, "mut=" + mut, "ks=" + s.ksKind, "keys=" + s.scenName, "alg=" + s.alg, "claims=" + claimMut, "kidhdr=" + tagStr(s.kid), "allow=" + class, "payload_size=" + size}
+	tags := []string{"kind=verify", "v=" + kind, "mut=" + mut, "ks=" + s.ksKind, "keys=" + s.scenName, "alg=" + s.alg, "claims=" + claimMut, "kidhdr=" + tagStr(s.kid), "allow=" + class, "payload_size=" + size, "ctor=" + ctorTag}
 	if mut == "payload_null" {
 		tags = append(tags, "payload=nonobject")
 	}
@@ -1760,6 +1832,50 @@ func (g *gen) tenantsCase() {
 	g.w.Add(emit.Case{Input: tok.Share(in), Observed: o, Tags: tags, Human: map[string]any{"calls": hows, "overlap": overlap}})
 }
 
+// rpCtorCase: the ID token verifier a relying party hands out after
+// rp.NewRelyingPartyOIDC against a mock discovery document; option pattern drawn
+// around the algorithm of an otherwise valid, correctly signed token.
+func (g *gen) rpCtorCase() {
+	r := g.r
+	alg := drv.Pick(r, append(append([]string{}, allAlgs...), defAlgs...))
+	signer := drv.Pick(r, g.pool.ForAlg(alg))
+	ctor := tok.DrawCtor(r.IntN, alg, allAlgs)
+	cl := drv.Pick(r, clientIDs)
+	e := ""
+	v := tok.VCfg{Issuer: issuer, Client: cl, Offset: time.Second, Nonce: &e, Algs: ctor.Documented()}
+	ks := tok.KeySetDesc{Kind: "remote", Served: []tok.JWK{{Kid: "k1", Use: "sig", Key: signer}}}
+	now := time.Now().Unix()
+	c := tok.Claims{Iss: issuer, Sub: "user-1", Aud: []string{cl}, Exp: now + 3600, Iat: now - 10, Extra: fmt.Sprintf("c%d", r.IntN(100000))}
+	t, m := tok.Build(r, tok.BuildSpec{Signer: signer, Alg: alg, Kid: "k1", Claims: c, Payload: c.Payload(g.payloadOpts("ext")), Mut: "none"})
+	var out *oidc.IDTokenClaims
+	var err error
+	ctx, cancel := context.WithTimeout(context.Background(), 5*time.Second)
+	defer cancel()
+	pan := ""
+	pv, cerr := ctor.NewRP(issuer, cl, ks.Served, false)
+	if cerr != nil {
+		pan = "NewRelyingPartyOIDC: " + cerr.Error()
+	}
+	t0 := time.Now().UnixNano()
+	if pan == "" {
+		pan = drv.Catch(func() { out, err = rp.VerifyIDToken[*oidc.IDTokenClaims](ctx, t.Raw, pv) })
+	}
+	t1 := time.Now().UnixNano()
+	obs := emit.Ctor("OVerify", idOutcome(out, err))
+	if pan != "" {
+		obs = "OPanic"
+	}
+	if tok.TimeView(v, c, t0) != tok.TimeView(v, c, t1) {
+		g.amb++
+		return
+	}
+	in := emit.Ctor("IVerify", "VRpIDToken", v.Coq(), ks.Coq(), t.Coq(), m.Coq(), emit.Z(t0), emit.Z(t1))
+	g.w.Add(emit.Case{Input: tok.Share(in), Observed: obs,
+		Tags: []string{"kind=rpctor", "alg=" + alg, fmt.Sprintf("explicit=%v", ctor.Explicit != nil), fmt.Sprintf("disc=%v", ctor.Disc), fmt.Sprintf("disc_first=%v", ctor.DiscFirst),
+			fmt.Sprintf("announced_nil=%v", ctor.Announced == nil)},
+		Human: map[string]any{"explicit": ctor.Explicit, "announced": ctor.Announced, "token": t.Raw}})
+}
+
 // ---------------------------------------------------------------- provider options
 
 // customKeySet builds a caller-supplied key set around key (mostly containing it).
@@ -1978,11 +2094,11 @@ func main() {
 	g.pool = tok.NewPool(g.r)
 	tok.SetWarm(g.pool)
 	g.w = emit.NewWriter(cfg.Out, "C02_spec", shardSize(cfg), cfg.Only)
-	n := cfg.Count(900, 22500)
+	n := cfg.Count(960, 24000)
 	kinds := []string{"rp", "at", "hint", "jwt", "ro"}
 	seqKinds := []string{"rp", "at", "rp", "hint", "jwt", "rp", "ro"} // the stateful key set most often
 	for i := 0; i < n; i++ {
-		switch i % 15 {
+		switch i % 16 {
 		case 0:
 			g.findCase()
 		case 1, 2:
@@ -1994,11 +2110,13 @@ func main() {
 		case 10, 11:
 			g.providerCase()
 		case 12, 13:
-			g.instanceSeqCase(seqKinds[(i/15+3*(i%15-12))%len(seqKinds)])
+			g.instanceSeqCase(seqKinds[(i/16+3*(i%16-12))%len(seqKinds)])
 		case 14:
 			g.tenantsCase()
+		case 15:
+			g.rpCtorCase()
 		default:
-			g.verifyCase(kinds[i%15-3])
+			g.verifyCase(kinds[i%16-3])
 		}
 	}
 	err := g.w.Close(emit.Meta{Property: "C02", Tier: cfg.Tier, Seed: cfg.Seed,
